@@ -20,27 +20,32 @@ Theorem C10_signature_sizes : forall t, 0 <= t <= 65535 ->
   (if off_sig_size t =? 0 then None else Some (off_sig_size t)) = spec_sig_len t.
 Proof.
   intros t R. pose proof (tables_agree_all t R) as H. unfold agree_code in H.
-  repeat rewrite Bool.andb_true_iff in H. destruct H as [[[[[[[A B] C] D] E] F] G] I].
-  repeat split; apply optZ_eqb_eq; assumption.
+  repeat rewrite Bool.andb_true_iff in H. destruct H as [[[[[[A B] C] E] F] G] I].
+  split; [apply optZ_eqb_eq; assumption|]. split; [apply sig_length_in_range; exact R|apply optZ_eqb_eq; assumption].
 Qed.
 Theorem C10_signing_key_sizes : forall t, 0 <= t <= 65535 ->
   kc_spk_size t = spec_spk_len t /\ kc_sig_pub_sizes t = spec_spk_len t /\
   (if off_spk_size t =? 0 then None else Some (off_spk_size t)) = spec_spk_len t.
 Proof.
   intros t R. pose proof (tables_agree_all t R) as H. unfold agree_code in H.
-  repeat rewrite Bool.andb_true_iff in H. destruct H as [[[[[[[A B] C] D] E] F] G] I].
+  repeat rewrite Bool.andb_true_iff in H. destruct H as [[[[[[A B] C] E] F] G] I].
   repeat split; apply optZ_eqb_eq; assumption.
 Qed.
 Theorem C10_crypto_key_sizes : forall t, 0 <= t <= 65535 ->
   kc_crypto_size t = spec_crypto_len t /\ kc_crypto_pub_sizes t = spec_crypto_len t.
 Proof.
   intros t R. pose proof (tables_agree_all t R) as H. unfold agree_code in H.
-  repeat rewrite Bool.andb_true_iff in H. destruct H as [[[[[[[A B] C] D] E] F] G] I].
+  repeat rewrite Bool.andb_true_iff in H. destruct H as [[[[[[A B] C] E] F] G] I].
   repeat split; apply optZ_eqb_eq; assumption.
 Qed.
 (* the signature-length lookup takes an int: outside 0..65535 it is an error, never a size *)
 Theorem C10_sig_length_out_of_range : forall t, t < 0 \/ t > 65535 -> sig_length t = None.
 Proof. exact sig_length_out_of_range. Qed.
+(* signature.getSignatureLength as regenerated from its Go body, whatever shape the source gives
+   it (SigLen.v does not look at the shape): the specification's table inside the 16-bit range *)
+Theorem C10_signature_length_is_the_specifications : forall t, 0 <= t <= 65535 -> sig_length t = Spec.SpecTables.spec_sig_len t.
+Proof. exact sig_length_in_range. Qed.
+Print Assumptions C10_signature_length_is_the_specifications.
 (* for every supported pair of types the encryption key occupies the start of the 384-byte
    block, the signing key its end, the padding exactly the bytes between, and the declared
    sizes equal the lengths of the keys actually returned *)
